@@ -155,14 +155,17 @@ theorem doc_prefix_irrelevant_attr (c : Ctx) (e : Elem) (a p : Str) (q : Option 
 /-- What a prefixed attribute selector may read of an attribute: namespace URI, local name, value. -/
 def SameNsNameVal (x y : Attr) : Prop := x.kns = y.kns ∧ x.kname = y.kname ∧ x.val = y.val
 
-/-- `[ns|a]` with a non-empty, mapped, non-`*` prefix, in a document with namespace support:
-    the result depends on the attributes only through (`kns`, `kname`, `val`); the key text
-    (which carries the document's prefix) is not read at all. -/
+/-- `[ns|a]` with a non-empty, non-`*` prefix mapped to a NON-EMPTY URI, in a document with
+    namespace support: the result depends on the attributes only through (`kns`, `kname`, `val`);
+    the key text (which carries the document's prefix) is not read at all.  (`u ≠ []` is needed
+    since fix 3a64a82: a prefix mapped to `''` compares the whole key, see `attr_ns_empty` and
+    `key_text_matters_for_empty_uri`.) -/
 theorem attr_prefix_text_irrelevant (c : Ctx) (e : Elem) (as bs : List Attr) (a p u : Str)
     (h : c.supportsNamespaces = true) (hp : p ≠ []) (hs : p ≠ "*".toStr) (hm : c.nsGet p = some u)
+    (hu : u ≠ [])
     (hrel : Pairwise₂ SameNsNameVal as bs) :
     matchAttributeName c { e with attrs := as } a p = matchAttributeName c { e with attrs := bs } a p := by
-  rw [man_ns h _ a p u hp hs hm, man_ns h _ a p u hp hs hm]
+  rw [man_ns h _ a p u hp hs hm hu, man_ns h _ a p u hp hs hm hu]
   refine find?_map_pairwise₂ ?_ ?_ hrel
   · rintro x y ⟨h1, h2, _⟩; simp [localNameEq, h1, h2]
   · rintro x y ⟨_, _, h3⟩; simp [valOf, h3]
@@ -172,10 +175,12 @@ theorem attr_prefix_text_irrelevant (c : Ctx) (e : Elem) (as bs : List Attr) (a 
 def SameUpToPrefixText (x y : Attr) : Prop :=
   x.kns = y.kns ∧ x.kname = y.kname ∧ x.val = y.val ∧ (x.kns = none → x.key = y.key)
 
-/-- Every prefixed form (`[ns|a]` mapped or not, `[*|a]`), with namespace support: the key text
-    is read only on attributes that have no namespace. -/
+/-- Every prefixed form (`[ns|a]` mapped to a non-empty URI or unmapped, `[*|a]`), with namespace
+    support: the key text is read only on attributes that have no namespace.  (Since fix 3a64a82 a
+    prefix mapped to `''` is the whole-key form `[a]`, which reads the key of every attribute:
+    hence `hne`; `key_text_matters_for_empty_uri` shows it cannot be dropped.) -/
 theorem attr_prefix_text_irrelevant_gen (c : Ctx) (e : Elem) (as bs : List Attr) (a p : Str)
-    (h : c.supportsNamespaces = true) (hp : p ≠ [])
+    (h : c.supportsNamespaces = true) (hp : p ≠ []) (hne : c.nsGet p ≠ some [])
     (hrel : Pairwise₂ SameUpToPrefixText as bs) :
     matchAttributeName c { e with attrs := as } a p = matchAttributeName c { e with attrs := bs } a p := by
   by_cases hs : p = "*".toStr
@@ -190,8 +195,8 @@ theorem attr_prefix_text_irrelevant_gen (c : Ctx) (e : Elem) (as bs : List Attr)
   · cases hm : c.nsGet p with
     | none => rw [man_unmapped h _ a p hp hs hm, man_unmapped h _ a p hp hs hm]
     | some u =>
-      refine attr_prefix_text_irrelevant c e as bs a p u h hp hs hm ?_
-      clear hm
+      refine attr_prefix_text_irrelevant c e as bs a p u h hp hs hm (fun hu => hne (hu ▸ hm)) ?_
+      clear hm hne
       induction hrel with
       | nil => exact .nil
       | cons hab _ ih => exact .cons ⟨hab.1, hab.2.1, hab.2.2.1⟩ ih
@@ -205,18 +210,36 @@ theorem inNs_iff (c : Ctx) (a u : Str) (x : Attr) :
     inNs c a u x = true ↔ x.kns = some u ∧ ∃ nm, x.kname = some nm ∧ NameEq c a nm := by
   simp [inNs, localNameEq_iff, nameEq_true_iff]
 
-/-- `[ns|a]`, equational form: the first attribute in namespace `u` with local name `a`. -/
+/-- `[ns|a]`, equational form: the first attribute in namespace `u` with local name `a`
+    (`u ≠ []`; a prefix mapped to the empty string is `attr_ns_empty`). -/
 theorem attr_ns_eq (c : Ctx) (e : Elem) (a p u : Str) (h : c.supportsNamespaces = true)
-    (hp : p ≠ []) (hs : p ≠ "*".toStr) (hm : c.nsGet p = some u) :
+    (hp : p ≠ []) (hs : p ≠ "*".toStr) (hm : c.nsGet p = some u) (hu : u ≠ []) :
     matchAttributeName c e a p = (e.attrs.find? (inNs c a u)).map (fun x => normalizeValue x.val) :=
-  man_ns h e a p u hp hs hm
+  man_ns h e a p u hp hs hm hu
 
 /-- `[ns|a]` matches attribute `a` in the mapped namespace. -/
 theorem attr_ns (c : Ctx) (e : Elem) (a p u : Str) (v : NVal) (h : c.supportsNamespaces = true)
-    (hp : p ≠ []) (hs : p ≠ "*".toStr) (hm : c.nsGet p = some u) :
+    (hp : p ≠ []) (hs : p ≠ "*".toStr) (hm : c.nsGet p = some u) (hu : u ≠ []) :
     matchAttributeName c e a p = some v ↔
       ∃ x, e.attrs.find? (inNs c a u) = some x ∧ normalizeValue x.val = v := by
-  rw [attr_ns_eq c e a p u h hp hs hm, Option.map_eq_some_iff]
+  rw [attr_ns_eq c e a p u h hp hs hm hu, Option.map_eq_some_iff]
+
+/-- NEW (fix 3a64a82).  A prefix mapped to the EMPTY string designates attributes without a
+    namespace the way `[a]` / `[|a]` do: `[p|a]` IS the whole-key form — the first attribute whose
+    full key text is `a` (as `p|E` with `p ↦ ''` is `|E`, `ns_prefix` with `u = []` / `ns_none`). -/
+theorem attr_ns_empty (c : Ctx) (e : Elem) (a p : Str) (h : c.supportsNamespaces = true)
+    (hp : p ≠ []) (hs : p ≠ "*".toStr) (hm : c.nsGet p = some []) :
+    matchAttributeName c e a p =
+      (e.attrs.find? (fun x => nameEq c a x.key)).map (fun x => normalizeValue x.val) :=
+  man_ns_empty h e a p hp hs hm
+
+/-- … hence `[p|a]` ≡ `[a]` ≡ `[|a]` (the two latter reach the matcher with the empty prefix). -/
+theorem attr_ns_empty_eq_bare (c : Ctx) (e : Elem) (a p : Str)
+    (hp : p ≠ []) (hs : p ≠ "*".toStr) (hm : c.nsGet p = some []) :
+    matchAttributeName c e a p = matchAttributeName c e a [] := by
+  cases h : c.supportsNamespaces
+  · rw [man_no_ns h, man_no_ns h]
+  · rw [man_ns_empty h e a p hp hs hm, man_bare h]
 
 /-- An unmapped prefix matches nothing. -/
 theorem attr_ns_unmapped (c : Ctx) (e : Elem) (a p : Str) (h : c.supportsNamespaces = true)
@@ -293,10 +316,25 @@ theorem doc_prefix_irrelevant_attr_values (c : Ctx) (e : Elem) (a p : Str) (q : 
 
 /-- `[ns|a]`, `ns ↦ u`: ALL the attributes in namespace `u` with local name `a`, document order. -/
 theorem attr_ns_values (c : Ctx) (e : Elem) (a p u : Str) (h : c.supportsNamespaces = true)
-    (hp : p ≠ []) (hs : p ≠ "*".toStr) (hm : c.nsGet p = some u) :
+    (hp : p ≠ []) (hs : p ≠ "*".toStr) (hm : c.nsGet p = some u) (hu : u ≠ []) :
     matchAttributeValues c e a p =
       (e.attrs.filter (inNs c a u)).map (fun x => normalizeValue x.val) :=
-  mav_ns h e a p u hp hs hm
+  mav_ns h e a p u hp hs hm hu
+
+/-- NEW (fix 3a64a82).  `[p|a]`, `p ↦ ''`: the attributes whose FULL key text equals `a`, exactly
+    what `[a]` / `[|a]` designate (`attr_bare_values`). -/
+theorem attr_ns_empty_values (c : Ctx) (e : Elem) (a p : Str) (h : c.supportsNamespaces = true)
+    (hp : p ≠ []) (hs : p ≠ "*".toStr) (hm : c.nsGet p = some []) :
+    matchAttributeValues c e a p =
+      (e.attrs.filter (fun x => nameEq c a x.key)).map (fun x => normalizeValue x.val) :=
+  mav_ns_empty h e a p hp hs hm
+
+theorem attr_ns_empty_values_eq_bare (c : Ctx) (e : Elem) (a p : Str)
+    (hp : p ≠ []) (hs : p ≠ "*".toStr) (hm : c.nsGet p = some []) :
+    matchAttributeValues c e a p = matchAttributeValues c e a [] := by
+  cases h : c.supportsNamespaces
+  · rw [mav_no_ns h, mav_no_ns h]
+  · rw [mav_ns_empty h e a p hp hs hm, mav_bare h]
 
 /-- An unmapped prefix designates nothing. -/
 theorem attr_ns_unmapped_values (c : Ctx) (e : Elem) (a p : Str) (h : c.supportsNamespaces = true)
@@ -342,17 +380,18 @@ theorem attr_no_ns_support_prefix_irrelevant_values (c : Ctx) (e : Elem) (a p q 
 /-- `attr_prefix_text_irrelevant` for every designated attribute. -/
 theorem attr_prefix_text_irrelevant_values (c : Ctx) (e : Elem) (as bs : List Attr) (a p u : Str)
     (h : c.supportsNamespaces = true) (hp : p ≠ []) (hs : p ≠ "*".toStr) (hm : c.nsGet p = some u)
+    (hu : u ≠ [])
     (hrel : Pairwise₂ SameNsNameVal as bs) :
     matchAttributeValues c { e with attrs := as } a p =
       matchAttributeValues c { e with attrs := bs } a p := by
-  rw [mav_ns h _ a p u hp hs hm, mav_ns h _ a p u hp hs hm]
+  rw [mav_ns h _ a p u hp hs hm hu, mav_ns h _ a p u hp hs hm hu]
   refine filter_map_pairwise₂ ?_ ?_ hrel
   · rintro x y ⟨h1, h2, _⟩; simp [localNameEq, h1, h2]
   · rintro x y ⟨_, _, h3⟩; simp [valOf, h3]
 
 /-- `attr_prefix_text_irrelevant_gen` for every designated attribute. -/
 theorem attr_prefix_text_irrelevant_gen_values (c : Ctx) (e : Elem) (as bs : List Attr) (a p : Str)
-    (h : c.supportsNamespaces = true) (hp : p ≠ [])
+    (h : c.supportsNamespaces = true) (hp : p ≠ []) (hne : c.nsGet p ≠ some [])
     (hrel : Pairwise₂ SameUpToPrefixText as bs) :
     matchAttributeValues c { e with attrs := as } a p =
       matchAttributeValues c { e with attrs := bs } a p := by
@@ -368,8 +407,8 @@ theorem attr_prefix_text_irrelevant_gen_values (c : Ctx) (e : Elem) (as bs : Lis
   · cases hm : c.nsGet p with
     | none => rw [mav_unmapped h _ a p hp hs hm, mav_unmapped h _ a p hp hs hm]
     | some u =>
-      refine attr_prefix_text_irrelevant_values c e as bs a p u h hp hs hm ?_
-      clear hm
+      refine attr_prefix_text_irrelevant_values c e as bs a p u h hp hs hm (fun hu => hne (hu ▸ hm)) ?_
+      clear hm hne
       induction hrel with
       | nil => exact .nil
       | cons hab _ ih => exact .cons ⟨hab.1, hab.2.1, hab.2.2.1⟩ ih
@@ -402,11 +441,30 @@ theorem attr_any_value_test (c : Ctx) (e : Elem) (a : Str) (pat xt : Option Rx)
 
 /-- `[ns|a op v]`, `ns ↦ u`: likewise over the attributes in namespace `u`. -/
 theorem attr_ns_value_test (c : Ctx) (e : Elem) (a p u : Str) (pat xt : Option Rx)
-    (h : c.supportsNamespaces = true) (hp : p ≠ []) (hs : p ≠ "*".toStr) (hm : c.nsGet p = some u) :
+    (h : c.supportsNamespaces = true) (hp : p ≠ []) (hs : p ≠ "*".toStr) (hm : c.nsGet p = some u)
+    (hu : u ≠ []) :
     matchAttributes c e [⟨a, p, pat, xt⟩] = true ↔
       ∃ x ∈ e.attrs, inNs c a u x = true ∧ passes c ⟨a, p, pat, xt⟩ (normalizeValue x.val) = true := by
-  rw [attr_value_test, attr_ns_values c e a p u h hp hs hm]
+  rw [attr_value_test, attr_ns_values c e a p u h hp hs hm hu]
   simp only [List.any_map, List.any_filter, List.any_eq_true, Bool.and_eq_true, Function.comp]
+
+/-- NEW (fix 3a64a82).  `[p|a op v]`, `p ↦ ''`: some attribute whose full key text is `a` has a
+    value that passes — the test of `[a op v]`. -/
+theorem attr_ns_empty_value_test (c : Ctx) (e : Elem) (a p : Str) (pat xt : Option Rx)
+    (h : c.supportsNamespaces = true) (hp : p ≠ []) (hs : p ≠ "*".toStr) (hm : c.nsGet p = some []) :
+    matchAttributes c e [⟨a, p, pat, xt⟩] = true ↔
+      ∃ x ∈ e.attrs, nameEq c a x.key = true ∧ passes c ⟨a, p, pat, xt⟩ (normalizeValue x.val) = true := by
+  rw [attr_value_test, attr_ns_empty_values c e a p h hp hs hm]
+  simp only [List.any_map, List.any_filter, List.any_eq_true, Bool.and_eq_true, Function.comp]
+
+/-- … and it is literally the bare selector's verdict: `[p|a op v]` ≡ `[a op v]` ≡ `[|a op v]`. -/
+theorem attr_ns_empty_matchAttributes_eq_bare (c : Ctx) (e : Elem) (a p : Str) (pat xt : Option Rx)
+    (hp : p ≠ []) (hs : p ≠ "*".toStr) (hm : c.nsGet p = some []) :
+    matchAttributes c e [⟨a, p, pat, xt⟩] = matchAttributes c e [⟨a, [], pat, xt⟩] := by
+  rw [attr_value_test, attr_value_test]
+  show (matchAttributeValues c e a p).any _ = (matchAttributeValues c e a []).any _
+  rw [attr_ns_empty_values_eq_bare c e a p hp hs hm]
+  rfl
 
 /-- The specification side (`Css.satAttr`, value tests of `Spec/CssValue.lean`): `[*|a op v flag]`
     for every operator but `!=` … -/
@@ -499,6 +557,29 @@ example : matchAttributes cxml (circle none none [xhref "x:href" u1, plainHref])
 example : matchAttributeName cxml (circle none none [xhref "x:href" u1]) "href".toStr [] = none := by decide
 example : matchAttributeName cxml (circle none none [xhref "x:href" u1]) "x:href".toStr []
     = some (.str "v".toStr) := by decide
+
+/-- An XML document context whose prefix map sends `n` to the EMPTY string (and `svg` to `u1`). -/
+def cxmlEmpty : Ctx := { cxml with namespaces := [("n".toStr, []), ("svg".toStr, u1)] }
+
+-- `[n|href]`, `n ↦ ''` (fix 3a64a82): the attribute `href` without a namespace, as `[href]`;
+-- before the fix the model (and the code) answered `none`
+example : matchAttributeName cxmlEmpty (circle none none [xhref "x:href" u1, plainHref]) "href".toStr "n".toStr
+    = some (.str "w".toStr) := by decide
+example : matchAttributeName cxmlEmpty (circle none none [xhref "x:href" u1]) "href".toStr "n".toStr
+    = none := by decide
+-- `n|circle` with the same map: the element without a namespace
+example : matchTag cxmlEmpty (circle none none []) (some ⟨"circle".toStr, some "n".toStr⟩) = true := by decide
+example : matchTag cxmlEmpty (circle none (some u1) []) (some ⟨"circle".toStr, some "n".toStr⟩) = false := by decide
+
+/-- The hypothesis `u ≠ []` / `nsGet p ≠ some []` of `attr_prefix_text_irrelevant(_gen)` is needed:
+    with `n ↦ ''` the selector `[n|x\:href]` is the whole-key form and reads the key text of a
+    namespaced attribute. -/
+theorem key_text_matters_for_empty_uri :
+    cxmlEmpty.supportsNamespaces = true ∧ cxmlEmpty.nsGet "n".toStr = some [] ∧
+    SameUpToPrefixText (xhref "x:href" u1) (xhref "y:href" u1) ∧
+    matchAttributeName cxmlEmpty (circle none none [xhref "x:href" u1]) "x:href".toStr "n".toStr
+      ≠ matchAttributeName cxmlEmpty (circle none none [xhref "y:href" u1]) "x:href".toStr "n".toStr := by
+  refine ⟨by decide, by decide, ⟨rfl, rfl, rfl, by decide⟩, by decide⟩
 
 /-- The hypothesis `supportsNamespaces = true` of `attr_prefix_text_irrelevant` is needed: without
     namespace support the whole key text is compared, for every prefix. -/
